@@ -1,6 +1,6 @@
 PID = "C19"
 WORKER = "w_c19"
-HEADER = "From Coq Require Import List Arith.\nFrom Dimod Require Import Base.Util Model.Store Model.ChkC19.\nImport ListNotations."
+HEADER = "From Coq Require Import List ZArith QArith Qcanon Arith.\nFrom Dimod Require Import Base.Util Model.Poly Model.Samples Model.SSet Model.Store Model.Heap Model.ChkC19.\nImport ListNotations."
 CHECK_FN = "check"
 N_QUICK = 1600
 N_THOROUGH = 40000
@@ -17,13 +17,13 @@ RULE = ("histories with up to 5 live handles starting from a random BQM (float64
         "variables, vartypes, bounds, record.tobytes(), labels, info), snapshots interned; expected results come from the same call on a "
         "detached clone; the store model in Coq decides what every handle must show; each snapshot also calls energies() on the object "
         "and compares with its own coefficients (per-instance cached forwarding methods); non-trivial = at least 2 handles and 3 dumps")
-TRUSTED = ["model: coq/theories/Model/{Store,Heap,CopyApi,ChkC19}.v; translators/copy_api.py (fail-closed) -> Gen/Gen_Copy.v",
+TRUSTED = ["model: coq/theories/Model/{Store,Heap,CopyApi,ChkC19}.v; translators/copy_api.py (fail-closed) -> Gen/Gen_Copy.v (BQM, QM, CQM, SampleSet, DQM, BinaryPolynomial, Variables, VartypeView); rows for DQM / BinaryPolynomial are listed but not yet driven by the worker",
            "snapshot functions of harness/w_c19.py observe every piece of state an edit can reach (public accessors + record bytes)",
            "pickle/deepcopy clones are used to compute expected states; each clone is itself compared with its source before use"]
 ASSUMPTIONS = ["equal snapshots <=> equal observable state (interning)",
                "the calls replayed on a detached clone are deterministic"]
 PARTIAL = ["the C19 theorems are statements about the models: Model/Store.v (alias classes; spin/binary views instantiated with real model states) "
-           "and Model/Heap.v (every copy-producing call of the property text as a constructor - copy/deepcopy/pickle/construction from a model, "
+           "and Model/Heap.v - whose hstep the check now RUNS on every history (each step rendered as a Heap operation with its real parameters, or with the clone-derived result where Heap.v has no function for the call), comparing every owning handle with the predicted cell - (every copy-producing call of the property text as a constructor - copy/deepcopy/pickle/construction from a model, "
            "arithmetic incl. neutral operands, relabel / change_vartype / spin_to_binary / fix_variables with inplace=False, every SampleSet "
            "producer, concatenate inputs, CQM add_constraint copy vs move, set_objective, CQM expression views - with its result proved to be the "
            "documented function of the receiver, the receiver cell untouched, frame over arbitrary histories); the list of public methods with an "
